@@ -42,6 +42,7 @@ func runC11(c *Ctx) {
 	runC11SwallowedErrors(c)
 	runC11OutcomeKept(c)
 	runC11ReservedForIdentity(c)
+	runC11BindingPrecondition(c)
 	borrow(c, "O13", "C17", "O2", "every handed-out mutex is counted", "a waiter that is not counted loses the group mutex when the holder releases: a concurrent sync then runs inside the reservation critical section and deletes the reservation pod of a bind that is about to succeed")
 	borrow(c, "O13", "C17", "O2", "reference count changed once", "the per-group mutex is shared by the bind and the syncs of that group only while every user is counted")
 	runC11LabelRemoval(c)
@@ -676,4 +677,61 @@ func runC11ReservedForIdentity(c *Ctx) {
 			fmt.Sprintf("the claim is taken for already reserved without comparing the pod's %s: a stale entry of another pod instance stands in for this pod, the bind reports success and the pod is bound to a claim that is not reserved for it", map[bool]string{true: "UID", false: "name"}[okN]))
 	}
 	c.Floor("O14", "RET early returns of UpsertReservedFor", n, 1)
+}
+
+// runC11BindingPrecondition (O15): the bind attempt was prepared for one pod object (its claims, its config maps, its
+// labels). The Binding sent to the API server names that pod by UID, which the server treats as a precondition: a pod
+// deleted and re-created under the same name during the attempt is refused (Conflict → the attempt fails and is rolled
+// back) instead of being bound, unprepared, to the node chosen for its predecessor. Structural part decided: the
+// Binding's ObjectMeta.UID is assigned, from the UID of the pod handed to Bind.
+func runC11BindingPrecondition(c *Ctx) {
+	f := c.Anchor("O15", "pkg/binder/binding", "Binder", "Bind")
+	if f == nil {
+		return
+	}
+	n := 0
+	for _, h := range c.P.deepFind(f, func(in ssa.Instruction) bool {
+		a, ok := in.(*ssa.Alloc)
+		return ok && strings.HasSuffix(typeKey(a.Type()), "k8s.io/api/core/v1.Binding")
+	}, 1) {
+		a := h.In.(*ssa.Alloc)
+		n++
+		ok := false
+		var walk func(v ssa.Value, d int)
+		walk = func(v ssa.Value, d int) {
+			if d == 0 || v.Referrers() == nil {
+				return
+			}
+			for _, r := range *v.Referrers() {
+				switch x := r.(type) {
+				case *ssa.FieldAddr:
+					if termOf(x).lastField() == "UID" {
+						for _, rr := range *x.Referrers() {
+							if st, isSt := rr.(*ssa.Store); isSt && st.Addr == x {
+								t := termOf(st.Val)
+								if i, g := rootParam(t), st.Parent(); t.lastField() == "UID" && i >= 0 && i < len(g.Params) && strings.HasSuffix(typeKey(g.Params[i].Type()), "k8s.io/api/core/v1.Pod") {
+									ok = true
+								}
+							}
+						}
+					}
+					// a nested literal is built in a local and copied in whole
+					for _, rr := range *x.Referrers() {
+						if st, isSt := rr.(*ssa.Store); isSt && st.Addr == x {
+							if u, isU := st.Val.(*ssa.UnOp); isU {
+								if la, isA := u.X.(*ssa.Alloc); isA {
+									walk(la, d-1)
+								}
+							}
+						}
+					}
+					walk(x, d-1)
+				}
+			}
+		}
+		walk(a, 4)
+		c.Check(ok, "O15", "FIELDS", funcKey(h.In.Parent())+": the Binding carries the UID of the pod the attempt was prepared for", instrPos(a), "Binding.ObjectMeta.UID = pod.UID",
+			"the Binding is sent without the pod's UID: a pod that was deleted and re-created under the same name during the attempt is bound to the node chosen for its predecessor although nothing was prepared for it, and the attempt reports success")
+	}
+	c.Floor("O15", "FIELDS Binding objects built by the binder", n, 1)
 }
